@@ -108,7 +108,7 @@ def parse_validate(txt):
 def do_import():
     for key in sorted(CAT):
         pid, k = key.split("-")
-        src = os.path.join(SRC, pid, k) if k != "C" else os.path.join("/tmp/seed/out3", pid, "A")
+        src = {"C": os.path.join("/tmp/seed/out3", pid, "A"), "D": os.path.join("/tmp/seed/out4", pid, "A")}.get(k) or os.path.join(SRC, pid, k)
         if not os.path.exists(os.path.join(src, "validate.txt")):
             print("skip (no validate.txt):", key)
             continue
